@@ -26,7 +26,7 @@ type c09Tunnel struct {
 
 func CheckC09(l *Lab, verifDir string) int {
 	rep := NewReport("C09", l.Tier, l.Seed, "exploration", verifDir)
-	rep.Rule = "rounds of N in {8,16,32,64} concurrent tunnels (both transports, several users) against the race-instrumented real binary, each tunnel doing one of: streams then close, CLOSE_CHANNEL while the host is still streaming, out-of-order handshake while the host is streaming, keep-alive bursts, FIN / RST of the websocket or of legacy IN / OUT mid-stream, connect-disconnect storms, early FIN, tunnel-auth only (negative idle timeout configured); PRNG start offsets and delay points (registry, tunnel.write, forward.beforeWrite, process.afterRead, legacy.attach). Verdict: any race-detector report, fatal error, panic, process exit, or a client stream that does not parse as whole packets / whose DATA payload is not a prefix of its own host's generator stream. non-trivial = tunnel got at least one response; distinct = interleaving signature of the round (global order of response arrivals per tunnel rank)"
+	rep.Rule = "rounds of N in {8,16,32,64} concurrent tunnels (both transports, several users) against the race-instrumented real binary, each tunnel doing one of: streams then close, CLOSE_CHANNEL while the host is still streaming, out-of-order handshake while the host is streaming, keep-alive bursts, FIN / RST of the websocket or of legacy IN / OUT mid-stream, connect-disconnect storms, early FIN, tunnel-auth only, a tunnel alive > 1 s that keeps sending (idle timeout configured negative on one gateway, positive on the other); PRNG start offsets and delay points (registry, tunnel.write, forward.beforeWrite, process.afterRead, legacy.attach). Verdict: any race-detector report, fatal error, panic, process exit, or a client stream that does not parse as whole packets / whose DATA payload is not a prefix of its own host's generator stream. non-trivial = tunnel got at least one response; distinct = interleaving signature of the round (global order of response arrivals per tunnel rank)"
 	rounds := l.Pick(40, 600)
 	sizes := []int{8, 16, 32, 64}
 	rnd := NewRand(l.Seed, "c09")
@@ -47,8 +47,14 @@ func CheckC09(l *Lab, verifDir string) int {
 			defer idp.Close()
 		}
 		for pi, points := range pointsList {
+			// the idle timeout is configured negative (clamped per response) on one
+			// fixture and positive on the other: both are supported settings
+			idle := -5
+			if pi == 1 {
+				idle = 7
+			}
 			m, err := l.NewMultiFixture(MultiOpts{Kind: kind, N: 8, Race: true, Points: points, IdP: idp,
-				Mutate: func(c *GWConfig) { c.IdleTimeout = IntP(-5) }})
+				Mutate: func(c *GWConfig) { c.IdleTimeout = IntP(idle) }})
 			if err != nil {
 				rep.Inconclusive("fixture: " + err.Error())
 				continue
@@ -63,6 +69,12 @@ func CheckC09(l *Lab, verifDir string) int {
 				for i := 0; i < n; i++ {
 					ts = append(ts, c09Tunnel{Rank: i, Action: c09Actions[rnd.Intn(len(c09Actions))], Transport: Transports()[rnd.Intn(len(Transports()))],
 						User: rnd.Intn(len(m.Users)), StartUs: rnd.Intn(3000), Seed: rnd.Int63()})
+				}
+				if r%3 == 1 {
+					// one tunnel of the round lives for more than a second while
+					// it keeps sending: periodic per-tunnel work overlaps the packet loop
+					ts[rnd.Intn(len(ts))].Action = "slow-keepalive"
+					rep.Count("slow_keepalive_tunnels", 1)
 				}
 				ov := c09Round(rep, m, r, ts)
 				totalOverlap += ov
@@ -247,6 +259,20 @@ func c09Tunnel1(m *MultiFixture, tn c09Tunnel) (TSnapshot, []byte, bool, error) 
 		<-hostDone
 		t.WaitDataBytes(len(hostStream), env.W)
 		t.Send(Data([]byte{1}))
+		t.Send(CloseChannel(0))
+		t.WaitEnd(env.W, false)
+	case "slow-keepalive":
+		startHost(20000+rnd.Intn(20000), true)
+		for i := 0; i < 130; i++ {
+			if i%2 == 0 {
+				t.Send(Keepalive())
+			} else {
+				t.Send(Data(GenStream(key+uint64(i), 1+rnd.Intn(200))))
+			}
+			time.Sleep(10 * time.Millisecond)
+		}
+		<-hostDone
+		t.WaitDataBytes(len(hostStream), env.W)
 		t.Send(CloseChannel(0))
 		t.WaitEnd(env.W, false)
 	case "fin-midstream", "rst-midstream", "rst-out-midstream":
